@@ -7,6 +7,10 @@ open Dcg.Model.Write
 def benignCalls : List String :=
   ["as_posix", "bool", "cast", "dict", "exists", "format", "get", "getattr", "geturl", "is_dir", "is_file", "isinstance", "isoformat", "items", "joinpath", "keys", "len", "list", "now", "print", "replace", "rstrip", "set", "sorted", "str", "strip", "tuple", "values"]
 
+/-- the only calls treated as unable to fail from the first file-system effect on (plus `.format` on a literal-built variable) -/
+def strictBenignCalls : List String :=
+  ["exists", "is_dir", "is_file", "rstrip", "strip"]
+
 /-- `generate()` up to the write loop -/
 def pre : List Step :=
   [⟨.mayRaise, "DefaultPutDict", .none⟩,
@@ -107,8 +111,13 @@ def pre : List Step :=
    ⟨.benign, "modules.items", .none⟩,
    ⟨.loopBegin, "modules.items()", .none⟩,
    ⟨.benign, "header.format", .none⟩,
+<<<<<<< HEAD
    ⟨.mayRaise, "<expr>.encode", .none⟩,
    ⟨.mayRaise, "<expr>.encode", .none⟩,
+=======
+   ⟨.encodeCheck, "custom_file_header or header.format(filename)", .perModule⟩,
+   ⟨.encodeCheck, "body", .perModule⟩,
+>>>>>>> wip-modules
    ⟨.loopEnd, "", .none⟩,
    ⟨.benign, "modules.items", .none⟩]
 
@@ -117,11 +126,11 @@ def loopBody : List Step :=
   [⟨.benign, "path.parent.exists", .none⟩,
    ⟨.mkdir, "path.parent.mkdir", .loopPathParent⟩,
    ⟨.openW, "path.open('wt')", .loopPath⟩,
-   ⟨.benign, "header.format", .none⟩,
-   ⟨.write, "print(file=)", .loopPath⟩,
-   ⟨.write, "print(file=)", .loopPath⟩,
+   ⟨.benign, "header.format(literal-built)", .none⟩,
+   ⟨.write, "custom_file_header or header.format(filename)", .loopPath⟩,
+   ⟨.write, "", .loopPath⟩,
    ⟨.benign, "body.rstrip", .none⟩,
-   ⟨.write, "print(file=)", .loopPath⟩,
+   ⟨.write, "body", .loopPath⟩,
    ⟨.close, "file.close", .loopPath⟩]
 
 /-- `generate()` after the write loop -/
